@@ -335,6 +335,10 @@ func (c *Client) Invoke(ctx context.Context, contract util.Uint160, await, payBy
 // TestInvoke invokes contract method locally in neo-go node. This method should
 // be used to read data from smart-contract.
 func (c *Client) TestInvoke(contract util.Uint160, method string, args ...any) ([]stackitem.Item, error) {
+	if ok, res, err := c.verifIntercept("TestInvoke", contract, method, args); ok {
+		items, _ := res.([]stackitem.Item)
+		return items, err
+	}
 	resInvoke, err := c.Call(contract, method, args...)
 	if err != nil {
 		return nil, err
